@@ -27,6 +27,7 @@ type Config struct {
 	MaxPaths     int64
 	Ascii7       bool
 	Preempt      int
+	Delays       int // -1: unlimited; otherwise at most this many scheduling choices other than the canonical one per path
 	Params       map[string]int
 	SymMapOrder  bool
 	Debug        bool
@@ -88,7 +89,7 @@ type Explorer struct {
 
 	mu      sync.Mutex
 	cond    *sync.Cond
-	work    [][]decision
+	work    []workItem
 	busy    int
 	stopped bool
 
@@ -166,6 +167,7 @@ type pathCtx struct {
 	waitgroups   map[*value]*swg
 	onces        map[*value]bool
 	preemptions  int
+	delays       int
 	chanSeq      int
 	finished     chan pathAbort
 
@@ -208,7 +210,7 @@ func (ex *Explorer) site(id string) *siteStat {
 
 func (ex *Explorer) Run() {
 	ex.t0 = time.Now()
-	ex.work = [][]decision{nil}
+	ex.work = []workItem{{}}
 	if os.Getenv("SYMGO_PROGRESS") != "" {
 		stop := make(chan struct{})
 		defer close(stop)
@@ -253,8 +255,10 @@ func (ex *Explorer) Run() {
 					ex.cond.Broadcast()
 					return
 				}
-				pre := ex.work[len(ex.work)-1]
+				wi := ex.work[len(ex.work)-1]
+				ex.work[len(ex.work)-1] = workItem{}
 				ex.work = ex.work[:len(ex.work)-1]
+				pre := wi.prefix()
 				ex.busy++
 				ex.mu.Unlock()
 
@@ -299,11 +303,28 @@ func (ex *Explorer) addInconclusive(msg string) {
 	}
 }
 
-func (ex *Explorer) pushWork(tr []decision) {
-	cp := make([]decision, len(tr))
-	copy(cp, tr)
+// workItem is a decision prefix to explore: the decisions of the path that offered the alternative
+// (shared with that path's trace, which is append-only) followed by the alternative decision.
+type workItem struct {
+	pre  []decision
+	last decision
+	has  bool
+}
+
+func (wi workItem) prefix() []decision {
+	if !wi.has {
+		return nil
+	}
+	out := make([]decision, len(wi.pre)+1)
+	copy(out, wi.pre)
+	out[len(wi.pre)] = wi.last
+	return out
+}
+
+func (ex *Explorer) pushAlt(trace []decision, d decision) {
+	wi := workItem{pre: trace[:len(trace):len(trace)], last: d, has: true}
 	ex.mu.Lock()
-	ex.work = append(ex.work, cp)
+	ex.work = append(ex.work, wi)
 	ex.mu.Unlock()
 	ex.cond.Signal()
 }
@@ -631,7 +652,14 @@ func (p *pathCtx) abort(kind, msg string) {
 
 func (p *pathCtx) record(kind string, v int64) {
 	p.trace = append(p.trace, decision{kind, v})
+	if len(p.trace) > maxDecisionDepth {
+		// a path that keeps deciding (a loop over schedule points or symbolic branches that the
+		// bounds do not cut) is cut here and reported as an incomplete exploration
+		p.abort("budget", fmt.Sprintf("more than %d decisions on one path", maxDecisionDepth))
+	}
 }
+
+const maxDecisionDepth = 60000
 
 // branch decides a symbolic condition; returns the side taken and extends the pc.
 func (p *pathCtx) branch(c *Term, why string) bool {
@@ -683,8 +711,7 @@ decided:
 		if rt == Unknown || rf == Unknown {
 			p.unknownPC = true
 		}
-		alt := append(append([]decision{}, p.trace...), decision{"br:" + why, 0})
-		p.ex.pushWork(alt)
+		p.ex.pushAlt(p.trace, decision{"br:" + why, 0})
 		p.record("br:"+why, 1)
 		p.addPC(c)
 		return true
@@ -740,8 +767,7 @@ func (p *pathCtx) concretize(t *Term, why string) uint64 {
 	}
 	sort.Slice(vals, func(i, j int) bool { return vals[i] < vals[j] })
 	for _, v := range vals[1:] {
-		alt := append(append([]decision{}, p.trace...), decision{"cz:" + why, int64(v)})
-		p.ex.pushWork(alt)
+		p.ex.pushAlt(p.trace, decision{"cz:" + why, int64(v)})
 	}
 	p.record("cz:"+why, int64(vals[0]))
 	p.addPC(ts.Eq(t, ts.BV(vals[0], t.sort)))
@@ -761,8 +787,7 @@ func (p *pathCtx) choose(n int, why string) int {
 	}
 	p.pos++
 	for i := n - 1; i >= 1; i-- {
-		alt := append(append([]decision{}, p.trace...), decision{"ch:" + why, int64(i)})
-		p.ex.pushWork(alt)
+		p.ex.pushAlt(p.trace, decision{"ch:" + why, int64(i)})
 	}
 	p.record("ch:"+why, 0)
 	return 0
